@@ -4,6 +4,7 @@ from __future__ import annotations
 import ast
 
 from sa.cfg import CFG
+from sa.expr import edges_where, resolve, single_defs
 from sa.loader import AnalysisError, Program, dotted, norm, own_nodes
 from sa.locks import ClassLockInfo, EXEMPT
 from sa.util import (call_sites, kwarg, parent_map, self_attr, stmt_of, where, ancestors,
@@ -324,6 +325,34 @@ def run(ctx):
                           f"there is only protected by the per-object thread lock, so two processes on one journal can both pass it (e.g. both create the same study name)",
                   how="all reads of _replay_result / syncs come after _write_log", where=where(f, early[0].ast) if early else None)
     ctx.floor("R03.8", "journal_mutators", n_m8, 10)
+
+    # ---------------------------------------------------------------- R03.9 journal: the id handed back is the id of the caller's own record
+    ctx.rule("R03.9", "JournalStorage.create_new_trial returns the trial id that replay recorded for *this worker's* CREATE_TRIAL record (a field "
+             "written under the issuer test), not a position in replicated state: other processes' records may be replayed in the same sync")
+    REPLAYQ = "optuna.storages.journal._storage.JournalStorageReplayResult"
+    f = jr.methods.get("create_new_trial")
+    ctx.require(f is not None, "R03.9: JournalStorage.create_new_trial vanished")
+    fdefs = single_defs(f.node)
+    rets = [n.value for n in own_nodes(f.node) if isinstance(n, ast.Return) and n.value is not None]
+    ctx.require(rets, "R03.9: create_new_trial returns nothing")
+    apply_ct = p.cls(REPLAYQ).methods.get("_apply_create_trial")
+    ctx.require(apply_ct is not None, "R03.9: _apply_create_trial vanished")
+    ga = CFG(apply_ct.node, name=apply_ct.qualname)
+
+    def _issuer(e):
+        if isinstance(e, ast.Call) and self_attr(e.func) == "_is_issued_by_this_worker":
+            return True
+        return None
+    issuer_edges = [(t, k, m) for t in ga.stmt_nodes() if t.kind == "test" for k, m in t.succ if edges_where(t.expr, _issuer).get(k) is True]
+    for r in rets:
+        e = resolve(r, fdefs)
+        fld = e.attr if isinstance(e, ast.Attribute) and norm(e.value) == "self._replay_result" else None
+        writes = [n for n in ga.stmt_nodes() if n.kind == "stmt" and isinstance(n.ast, ast.Assign) and any(self_attr(t) == fld for t in n.ast.targets)] if fld else []
+        ok = bool(fld) and bool(writes) and bool(issuer_edges) and all(ga.dominated_by(w, [], issuer_edges) for w in writes)
+        ctx.check(ok, "R03.9", f.short, "returns-own-record-id",
+                  message=f"JournalStorage.create_new_trial returns `{norm(e)[:70]}`: that is not a value replay records only for this worker's own CREATE_TRIAL record. When another "
+                          f"process appends a CREATE_TRIAL for the same study between this call's append and its sync, both calls return the same trial id and one trial is left "
+                          f"without an owner", how="return value = a replay-result field assigned in _apply_create_trial under _is_issued_by_this_worker")
 
     # ---------------------------------------------------------------- R03.7 one critical section per call
     ctx.rule("R03.7", "InMemoryStorage / JournalStorage / GrpcClientCache: each public method interacts with shared state in exactly one "
